@@ -249,9 +249,14 @@ def siteOk (f : Fn) (stream : Bool) : FsIdx → Bool
   | .unit => true
   | .idx n => (f.sites[n]?.map Site.stream) == some stream
 
+/-- `if let Some(interface) = interface { name.push_str(&name_world_key(interface)); name.push_str("#") }
+name.push_str(&func.name)` -/
+def exportTail (k : Key) (f : Fn) : String :=
+  (match k.worldKey with | some s => s ++ "#" | none => "") ++ f.name
+
 /-- `WasmExport::Func`; `none` where wit-parser asserts (callback needs `AsyncCallback`). -/
 def funcExport (abi : LLAbi) (k : Key) (f : Fn) (kind : ExpKind) : Option Exp :=
-  let tail := (match k.worldKey with | some s => s ++ "#" | none => "") ++ f.name
+  let tail := exportTail k f
   match kind with
   | .normal =>
       let s := wasmSignature abi.exportVariant f.sig
